@@ -68,7 +68,8 @@ def _instances():
     F, T = False, True
     return [(2, 0, 1, 1, 1, (F, F), (F,), 1), (2, 0, 2, 2, 1, (F, F), (F, F), 2), (2, 1, 1, 1, 1, (T, F), (F,), 1), (2, 1, 2, 1, 1, (T, F), (T, F), 1),
             (3, 1, 1, 2, 1, (T, F, F), (F,), 2), (3, 1, 2, 2, 0, (F, T, F), (F, T), 1), (3, 2, 1, 1, 1, (T, T, F), (F,), 1), (1, 0, 1, 1, 1, (F,), (F,), 2),
-            (1, 1, 1, 1, 1, (T,), (T,), 1), (2, 2, 2, 2, 1, (T, T), (T, F), 0)]          # no stable root at all (random walks, local level): everything loaded on them is NaN
+            (1, 1, 1, 1, 1, (T,), (T,), 1), (2, 2, 2, 2, 1, (T, T), (T, F), 0),          # no stable root at all (random walks, local level): everything loaded on them is NaN
+            (2, 0, 0, 1, 0, (F, F), (), 1), (2, 1, 0, 1, 0, (T, F), (), 1)]              # a model without measurement variables (empty y block)
 
 
 @contract("C15", targets=[PC + "get_autocov_square", PC + "get_autocov_square_00", PC + "get_autocov_triangular_00", PC + "get_cov_triangular_00", PC + "get_cov_alpha_00",
